@@ -2,6 +2,7 @@ import CgtModel.Report
 import CgtModel.Config
 import CgtModel.Lemmas.LegArith
 import CgtModel.Lemmas.Round
+import CgtModel.Props.Formulas
 /-! # C04 — report arithmetic is self-consistent from legs to tax-year totals
 
 Statement (properties.jsonl): a disposal's gross proceeds are quantity × price of that day's sales,
